@@ -43,6 +43,9 @@ CLAIMED["C02"] = dict(engine="codec", tech="TLA+ model Codec.tla of the decode o
    text="Structural mutant space (delete, null, each wrong JSON type, at every field path incl. nested documents) generated from the specification and executed on the real decoders; accepted input is re-encoded and decoded again.", ref="DESIGN.md 3.7, 5 (C02)", note=CODEC_NOTE + " Raw byte-level coverage-guided fuzzing, truncation and concatenation are not part of this check.")
 CLAIMED["C11"] = dict(engine="codec", tech="TLA+ model Codec.tla of the reply builders (Sender rule, correlation, resource type); TLC enumerates all from/pp/to presence combinations x methods x builders x resource kinds; real builders are called and their result encoded and decoded through the TCP receive path; TLC monitor CodecObs (C11_Addressed, C11_Correlated, C11_WireOk)",
    text="Finite product of builder inputs enumerated completely; each reply is checked field by field and must survive the wire.", ref="DESIGN.md 3.7, 5 (C11)", note=CODEC_NOTE + " The live ping auto-reply is exercised by the server engines.")
+CLAIMED["C05"] = dict(engine="pending", tech="TLA+ model Pending.tla (lock regions of processCommand / trySubmitCommandResult) checked by TLC over every interleaving of a small instance; each generated interleaving is forced onto the real goroutines through gates at verif hooks between the lock regions; probe schedules from the finer-grained model and perturbed free runs with an adversarial responder; TLC monitor PendObs (C05_OwnIdOnly, C05_AtMostOnce, C05_DupRejected, C05_Completes, C05_UnknownToStream, C05_TableEmpty)",
+   text="Exhaustive over the interleavings of the model for 2 callers sharing an id (thorough: 3 callers, 3 response ids) with cancellation; every such schedule is executed on the real channel (forced through gates, so the real code is driven through the 7-8 step races no stress test hits) and the recorded history is checked by TLC; free runs sample larger workloads.", ref="DESIGN.md 3.3, 5 (C05)",
+   note="Gates sit outside the locks, so a forced schedule is an execution the Go scheduler could produce; schedules with both select arms ready are left to the free runs; TLC result holds for the stated instance sizes; trusted: TLC, CommunityModules Json, Go runtime.")
 CLAIMED["C06"]["engine"] = "hs-server+hs-client"
 CLAIMED["C06"]["note"] = HS_NOTE + " Both roles: server role on HsServer behaviours, client role on HsClient behaviours."
 CLAIMED["C06"]["tech"] += " and HsClient.tla + C06_ClientSendGuard for the client role"
@@ -76,6 +79,9 @@ m = {
            "baseline_off_cmd": "cd /repo && GOFLAGS=-mod=mod GOPROXY=off GOSUMDB=off GOTOOLCHAIN=local go test -json -vet=off -count=1 -timeout 25m ./...",
            "source_commits": hook_commits, "add_only": True},
  "engines": [
+   {"name": "pending", "path": "spec/Pending.tla spec/PendingMC.tla spec/PendingProps.tla spec/PendObs.tla harness/pend tools/engines/pending.py",
+    "serves_properties": ["C05"],
+    "kind_free_text": "TLA+ model of the pending-command table at lock-region granularity, TLC over all interleavings, forced-schedule replay on real goroutines through hook gates, perturbed free runs, TLC trace monitor"},
    {"name": "codec", "path": "spec/Codec.tla spec/CodecMC.tla spec/CodecObs.tla harness/codec tools/engines/codec.py",
     "serves_properties": ["C01", "C02", "C11"],
     "kind_free_text": "TLA+ model of the codec (wire keys, classification, decode outcome of deviating wire trees, reply builders, text grammars), TLC enumeration of the bounded domain, execution on the real codec, TLC monitor"},
